@@ -381,7 +381,9 @@ func runC07(res *hx.Result, rng *hx.Rng, tier string, outdir string) {
 			res.Sample(fmt.Sprintf("%s sig=%s %s input=%x -> class %d, %d bytes allocated, %d us", k7Names[j.entry], j.sig, j.desc, j.input, o.class, o.alloc, o.nanos/1000))
 		}
 		// correspondence: outcome class / bytes left against the models (inputs the model can evaluate quickly)
-		if o.class <= ocErr && len(j.input) <= 600 && !zeroWidthSpin && !deepText && j.entry != k7ParseIDL {
+		// lists of zero-width elements with a count that is not the honest one are kept out of the
+		// in-Coq evaluation (the model would materialise `count` empty elements)
+		if o.class <= ocErr && len(j.input) <= 600 && !zeroWidthSpin && !(zeroWidthType && j.desc != "valid") && !deepText && j.entry != k7ParseIDL {
 			big := 0
 			if o.alloc > 64<<20 {
 				big = 1
